@@ -144,7 +144,10 @@ _DONE = []
 
 
 def install():
-    location.install()
+    location.install()          # installs the models below as well
+
+
+def install_text_models():
     if _DONE:
         return
     _DONE.append(1)
@@ -200,6 +203,9 @@ def _worker(chunk):
             def verify(p, a, b, _w):
                 lo, hi = len(rest[:a].encode("utf-8")), len(rest[:b].encode("utf-8"))
                 r = interp.call_value(p.extra, [TextV(t.base, t.start + lo, t.start + hi, "str")])
+                if p.kind == "verify_map":
+                    from .interp import is_some
+                    return is_some(r)
                 if not isinstance(r, bool):
                     raise Inconclusive("verify() predicate answered %r" % (r,), interp.where())
                 return r
